@@ -140,6 +140,10 @@ func (g *uniGen) fieldVal(typ string, fd *FieldDef, key string, uniq int) *FVal 
 	if len(fd.Args) > 0 && g.c.Super.IsLeaf(fd.Type.Base()) {
 		return &FVal{Kind: FEcho}
 	}
+	if stable && g.k["listrequires"] && fd.Type.IsList() && g.c.Super.IsLeaf(fd.Type.Base()) {
+		// a list-valued @requires input: one JSON leaf (gen_lreq.go)
+		return &FVal{Kind: FSc, JSON: g.listLeaf(typ, fd, key, uniq)}
+	}
 	return g.val(typ, fd, fd.Type, key, uniq, stable)
 }
 
